@@ -196,6 +196,7 @@ struct thr {
 	uint64_t mask_suspends, mask_checks;
 	uint64_t regions_done[R_NR];
 	int in_section;
+	int exited;
 	struct samp samp[NSAMP];
 	int nsamp;
 	int pv_set;
@@ -232,6 +233,9 @@ static void hviol(struct thr *t, const char *key, const char *fmt, ...)
 	t->pv_set = 2;
 }
 
+#if VP_TSAN
+__attribute__((no_sanitize("thread")))
+#endif
 static void flush_pv(struct thr *t)
 {
 	if (t->pv_set == 2) {
@@ -777,7 +781,7 @@ static void check_nest(struct thr *t, unsigned long expect, const char *what, in
 	unsigned long w = rd_word();
 	if ((w & NEST_MASK) != expect)
 		vp_violation("interrupted-call-wrong-nesting",
-			     "cfg=%s thread %d: after %s (region %s, a handler section ran after every instruction of it) the nesting count is %lu but the thread's own calls add up to %lu (reader word %#lx)",
+			     "cfg=%s thread %d: after %s (region %s; signal handlers ran complete read-side sections while it executed) the nesting count is %lu but the thread's own calls add up to %lu (reader word %#lx)",
 			     cfgname, t->idx, what, region_names[region], w & NEST_MASK, expect, w);
 }
 
@@ -830,11 +834,12 @@ static void *reader_main(void *arg)
 		c19_w_read_unlock();
 		check_nest(t, 0, "outermost rcu_read_unlock() of a reader that receives asynchronous handlers", R_NONE);
 		log_sec(&t->secs[0], b, e);
-		__atomic_store_n(&vt->progress, vt->progress + 1, __ATOMIC_RELAXED);
+		(void) vt;	/* reader sections are not progress: the stuck detector watches grace periods and regions */
 		if (vp_rand_n(&t->rng, 8) == 0)
 			vp_spin_cycles(vp_rand_n(&t->rng, 2000));
 	}
 	thr_leave(t);
+	VP_STORE(t->exited, 1);
 	return NULL;
 }
 
@@ -934,6 +939,7 @@ static void *updater_main(void *arg)
 	}
 	if (reg)
 		thr_leave(t);
+	VP_STORE(t->exited, 1);
 	return NULL;
 }
 
@@ -1080,10 +1086,11 @@ static void *victim_main(void *arg)
 		vp_spin_cycles(vp_rand_n(&t->rng, 2000));
 		validate(p, "victim idle section end");
 		c19_w_read_unlock();
-		__atomic_store_n(&vt->progress, vt->progress + 1, __ATOMIC_RELAXED);
+		(void) vt;
 		usleep(50);
 	}
 	thr_leave(t);
+	VP_STORE(t->exited, 1);
 	return NULL;
 }
 
@@ -1091,6 +1098,7 @@ static void *victim_main(void *arg)
 
 #if VP_IS_BP
 static long n_episodes;
+static int spawner_done;
 static uint64_t ep_done, ep_first_lock_traps, ep_exit_traps, ep_handler_registered;
 static size_t bp_baseline_used;
 
@@ -1172,6 +1180,7 @@ static void *spawner_main(void *arg)
 		if (vp_rand_n(&r, 4) == 0)
 			usleep(vp_rand_n(&r, 200));
 	}
+	VP_STORE(spawner_done, 1);
 	return NULL;
 }
 #endif
@@ -1305,6 +1314,12 @@ static int sym_lookup(uint64_t pc, char *name, size_t len, uint64_t *off, int *l
 }
 
 /* ------------------------------------------------------------------ interval oracle */
+
+static int sec_cmp(const void *a, const void *b)
+{
+	const struct sec *x = a, *y = b;
+	return x->b < y->b ? -1 : x->b > y->b;
+}
 
 static uint64_t iv_evals, iv_nontrivial, iv_pairs;
 
@@ -1619,6 +1634,27 @@ static void report(void)
 
 /* ------------------------------------------------------------------ main */
 
+static void report(void);
+
+/* a violation may leave a reader word damaged for good (grace periods then never complete):
+ * once one is recorded the run is over; report what was observed and leave without joining */
+#if VP_TSAN
+__attribute__((no_sanitize("thread")))
+#endif
+static void bail_if_violation(void)
+{
+	if (!vp_nviolations() && !VP_LOAD(g_hviol))
+		return;
+	usleep(30000);	/* let the threads that noticed it park / report their own record */
+	VP_STORE(g_stop, 1);
+	usleep(20000);
+	for (int i = 0; i < nthr; i++)
+		flush_pv(&thr[i]);
+	report();
+	int rc = vp_finish();
+	_exit(rc ? rc : 1);
+}
+
 extern unsigned int vp_tun_qs_attempts, vp_tun_wait_attempts;
 extern int vp_tun_bp_sleep_ms;
 
@@ -1778,15 +1814,28 @@ int main(int argc, char **argv)
 #else
 	vp_barrier_wait(&start_barrier);
 #endif
-	while (!VP_LOAD(victim_done))
+	while (!VP_LOAD(victim_done)) {
+		bail_if_violation();
 		usleep(1000);
+	}
 #if VP_IS_BP
-	if (have_spawner)
+	if (have_spawner) {
+		while (!VP_LOAD(spawner_done)) {
+			bail_if_violation();
+			usleep(1000);
+		}
 		pthread_join(spawner, NULL);
+	}
 #endif
 	VP_STORE(g_stop, 1);
-	for (int i = 0; i < 1 + n_readers + n_updaters; i++)
+	for (int i = 0; i < 1 + n_readers + n_updaters; i++) {
+		while (!VP_LOAD(thr[i].exited)) {
+			bail_if_violation();
+			usleep(500);
+		}
 		pthread_join(thr[i].tid, NULL);
+	}
+	bail_if_violation();
 	VP_STORE(chaos_stop, 1);
 	pthread_join(chaos_tid, NULL);
 	rcu_barrier();
@@ -1809,6 +1858,12 @@ int main(int argc, char **argv)
 	if (!vp_eps)
 		vp_inconclusive("tsc-calibration-failed: interval oracle skipped");
 	else {
+		/* a handler that arrives while another one is still entering may be logged on the same
+		 * depth stream out of order: sort the streams by begin stamp */
+		for (int i = 0; i < nthr; i++)
+			for (int d = 0; d <= MAXD; d++)
+				if (thr[i].secs[d].n > 1)
+					qsort(thr[i].secs[d].v, thr[i].secs[d].n, sizeof(struct sec), sec_cmp);
 		for (int i = 0; i < nthr; i++)
 			check_waits(&thr[i].waits, "thread", i);
 		check_waits(&crcu_waits, "call_rcu-helper", 0);
@@ -1828,7 +1883,7 @@ int main(int argc, char **argv)
 	vp_counter_add("bp_episode_total_traps", ep_exit_traps);
 	vp_counter_add("bp_episode_registered_by_async_handler", ep_handler_registered);
 #endif
-	if (opt_step && thr[0].traps_total == 0) {
+	if (opt_step && thr[0].traps_total == 0 && !vp_nviolations()) {
 		fprintf(stderr, "sigrd: single-stepping produced no trap\n");
 		(void) vp_finish();
 		return 2;
